@@ -69,7 +69,7 @@ def classTag : Option (Class String) → String
 /-- the model of what the scenario observes after the first failure `e` (`secondAttempt` with the intended election
     rule), rendered in the harness' format -/
 def second (self : String) (t : Nat) (sid : Bytes) (holders : List String) (e : Err String) (retryable : Bool)
-    (claimant : Option String) (arrivals : List String) : String × String :=
+    (claimant : Option String) (arrivals : List String) (quiet : Bool := false) : String × String :=
   let key := keyOf sid (keyTab sid (self :: holders ++ claimant.toList ++ arrivals))
   let r := secondAttempt bullyElectedListed key self t holders e retryable claimant arrivals
   let sel := match r.election with | some cs => toks cs | none => "none"
@@ -80,6 +80,12 @@ def second (self : String) (t : Nat) (sid : Bytes) (holders : List String) (e : 
     (s!"sel={sel};r=-;start=none;run=-;res={res}", "giveup")
   | .idle => (s!"sel={sel};r=-;start=none;run=-;res=ok", "waitstart:idle")
   | .follows c =>
+    if r.election.isNone && quiet then
+      -- left out, and nothing is heard for three CoordinatorTimeouts before `c` initiates and starts the replacement
+      let st := runLeftOut [.quiet .coord, .quiet .coord, .quiet .coord, .msg (.init c), .msg (.start c (some 1))]
+      if st.timedOut || st.w.runs != [1] then ("sel=none;r=-;start=none;run=-;res=coord:none", "waitstart:expired")
+      else (s!"sel={sel};r={toks st.w.readies};start=none;run=w:p1;res=ok", "waitstart:quiet-then-started")
+    else
     (s!"sel={sel};r={tokOf c};start=none;run=w:p1;res=ok", if r.election.isSome then "retry:follows-claimant" else "waitstart:started")
   | .announces S => (s!"sel={sel};r=-;start={toks S};run=c:{toks S};res=ok", "retry:coordinates:announced")
   | .neverReady => (s!"sel={sel};r=-;start=none;run=-;res=ok", "retry:coordinates:never-ready")
@@ -125,12 +131,14 @@ def handle (op : String) (args : List String) (impl : String) : Option Verdict :
     let some holders := peers holders | return bad
     let some e := parseSpec spec | return bad
     let claimant := if claimant.startsWith "!" then (claimant.drop 1).toString else claimant  -- `!` marks a culprit claimant
+    let quiet := claimant.startsWith "~"   -- `~`: three silences longer than CoordinatorTimeout before the claimant speaks
+    let claimant := if quiet then (claimant.drop 1).toString else claimant
     let some claimant := (if claimant = "-" then some none else (peerOf claimant).map some) | return bad
     let some arrivals := peers arrivals | return bad
     match e with
     | none => return ⟨"sel=none;r=-;start=none;run=-;res=ok", impl == "sel=none;r=-;start=none;run=-;res=ok", "handle:nil"⟩
     | some e =>
-      let (m, tag) := second self t sid holders e true claimant arrivals
+      let (m, tag) := second self t sid holders e true claimant arrivals quiet
       let ok := match intended e with
         | some k => p11 self holders k true claimant.isSome impl
         | none => true
@@ -141,6 +149,8 @@ def handle (op : String) (args : List String) (impl : String) : Option Verdict :
     let some sid := fromHex sid | return bad
     let some holders := peers holders | return bad
     let retryable := retryable == "1"
+    let quiet := claimant.startsWith "~"
+    let claimant := if quiet then (claimant.drop 1).toString else claimant
     let some claimant := (if claimant = "-" then some none else (peerOf claimant).map some) | return bad
     let some arrivals := peers arrivals | return bad
     let key := keyOf sid (keyTab sid holders)
@@ -148,7 +158,7 @@ def handle (op : String) (args : List String) (impl : String) : Option Verdict :
     if first = "silent" then
       if c = self then return ⟨"selfcoord", impl == "selfcoord", "exec:selfcoord"⟩
       let e : Err String := .wrap (.coord (some c))
-      let (m, tag) := second self t sid holders e retryable claimant arrivals
+      let (m, tag) := second self t sid holders e retryable claimant arrivals quiet
       return ⟨"run1=none;" ++ m, p11 self holders (.coord (some c)) retryable claimant.isSome impl, s!"exec:silent:retryable={retryable}:{tag}"⟩
     -- `f:<code>`: watchExecution fails first (fail message from the coordinator), then the cancelled Run with <code>
     let withFail := first.startsWith "f:"
@@ -160,7 +170,7 @@ def handle (op : String) (args : List String) (impl : String) : Option Verdict :
         | none => "none"
       else "w:p0"
     if run1 = "none" then return ⟨"BADSCENARIO", false, "exec:badscenario"⟩
-    let (m, tag) := second self t sid holders e retryable claimant arrivals
+    let (m, tag) := second self t sid holders e retryable claimant arrivals quiet
     let ok := match intended e with
       | some k => p11 self holders k retryable claimant.isSome impl
       | none => true
